@@ -11,9 +11,9 @@ from the ADT facts, so a new variant must appear in every table. Keys carry no c
                L  string_len: variant -> constant part of the length and number of child lengths added
              simple codes: P and W are mutually inverse (hence bijective); containers: same prefix /
              brackets, one `{}` per child; L = total length of W's literals, one child length per `{}`
-  T-EQSTR    PartialEq<&str>: each container arm tests (starts_with / ends_with / strip_*) every literal W
-             writes for that variant. (The simple arms compare with a promoted `&&str` constant whose
-             value the extractor does not dump: not decided.)   Structure arm violated on the pinned tree.
+  T-EQSTR    PartialEq<&str> (the fourth table): each fieldless arm compares `other` with exactly the text W
+             writes for that variant (Unit: is_empty); each container arm tests (starts_with / ends_with /
+             strip_*) every literal W writes for that variant.   Structure arm violated on the pinned tree.
   FMT        <Signature as Display>::fmt and to_string write with outer parentheses (`true`),
              to_string_no_parens / write_as_string_no_parens with `false`; children inside
              write_as_string are formatted through Display
@@ -25,8 +25,8 @@ from the ADT facts, so a new variant must appear in every table. Keys carry no c
   HASH       Hash::hash: every variant arm feeds a tag; every child of a container is fed; all `hash`
              calls are on integers or on `Signature` itself (through Deref / Fields::iter), never on the
              representation types Child / Fields / Box (Static and Dynamic forms must hash alike). Same
-             representation rule for eq and cmp. Tag *values* are promoted constants (not in the facts)
-             and tag distinctness is not required by Hash/Eq consistency: not decided.
+             representation rule for eq and cmp. Tags are pairwise distinct (design clause T-HASH; this is
+             hash quality — Hash/Eq consistency itself only needs the clauses above).
   GRAMMAR    `many` repeats with a lower bound >= 1 (no empty struct); `parse` runs the top-level parser
              with `Parser::parse` (whole input must be consumed) and maps failure to an Err
   LIMITS     presence of the three limits in the parser (closure of `parse` inside the signature module):
@@ -42,8 +42,8 @@ META = {
     "level": ("The char<->variant tables of the parser, the formatter and string_len are extracted from MIR and must agree "
               "row by row over every variant of the enum; eq and cmp are evaluated symbolically for all ordered variant "
               "pairs; hash/eq/cmp are representation independent and cover every child; presence of the grammar's numeric "
-              "limits is decided. Not decided: the combinator grammar beyond these clauses, hash tag values and the simple "
-              "rows of PartialEq<&str> (promoted constants are not in the facts)."),
+              "limits is decided. Not decided: the combinator grammar beyond these clauses; that a limit, once present, uses "
+              "the right comparison."),
 }
 
 SIG = "zvariant_utils::signature::Signature"
@@ -100,6 +100,18 @@ def arg_root(body, place, depth=0):
     if rv[0] == "ref":
         return arg_root(body, [rv[2][0], list(rv[2][1]) + proj], depth + 1)
     return None
+
+
+def const_pv(body, op):
+    """value of a constant operand, looking through temporaries and `&literal` promoteds (`pv`)"""
+    o = mir.origin(body, op)
+    if o[0] != "const":
+        return None
+    k = o[1]
+    if "pv" in k:
+        return k["pv"]
+    v = k.get("v")
+    return None if isinstance(v, dict) else v
 
 
 def rpo_index(body):
@@ -485,14 +497,32 @@ def check_eq_str(ctx, f, cfg, V, W):
         if name not in arms:
             ctx.ob("T-EQSTR", "covers:" + name, False, "[%s] no arm for %s" % (cfg, name), where(eqs))
             continue
-        if not v["fields"]:
-            continue
         blocks = arm_blocks(eqs, arms, other, name)
+        if not v["fields"]:
+            want = "".join(x for x in W.get(name, ["?"]) if isinstance(x, str))
+            lits, empties = [], 0
+            for c in mir.calls(eqs):
+                if c.b not in blocks:
+                    continue
+                if c.is_("eq", "ne") and len(c.args) == 2:
+                    for a in c.args:
+                        pv = const_pv(eqs, a)
+                        if isinstance(pv, str):
+                            lits.append(pv)
+                if c.is_("is_empty"):
+                    empties += 1
+            if want == "":
+                ok = (empties >= 1 and not lits) or lits == [""]
+            else:
+                ok = lits == [want] and not empties
+            ctx.ob("T-EQSTR", "simple-literal:" + name, ok,
+                   "[%s] %s is written as %r; eq(&str) compares with %s" % (cfg, name, want, lits if lits else ("is_empty()" if empties else "nothing recognisable")),
+                   where(eqs))
+            continue
         tested = []
         for c in mir.calls(eqs):
             if c.b in blocks and c.is_("starts_with", "ends_with", "strip_prefix", "strip_suffix") and len(c.args) > 1:
-                k = mir.resolve_const(eqs, c.args[1])
-                tested.append((c.callee.rsplit("::", 1)[-1], k.get("v") if k else "?"))
+                tested.append((c.callee.rsplit("::", 1)[-1], const_pv(eqs, c.args[1])))
         lits = [x for x in W.get(name, []) if isinstance(x, str)]
         pre = lits[0] if lits else None
         suf = lits[-1] if len(lits) > 1 else None
@@ -610,6 +640,7 @@ def check_eq_cmp(ctx, f, cfg, V):
 
     # ---- children and representation independence (eq, cmp, hash)
     hs = ctx.one(f.find(name="hash", adt=SIG, trait="core::hash::Hash"), "<Signature as Hash>::hash")
+    tags = {}
     for body, rule, what, two in ((eq, "EQ", "eq", True), (cmp_, "F-CMP", "cmp", True), (hs, "HASH", "hash", False)):
         sb, arms, other = self_switch(ctx, f, body, what)
         fam = f.family(body)
@@ -619,8 +650,12 @@ def check_eq_cmp(ctx, f, cfg, V):
                 continue
             blocks = arm_blocks(body, arms, other, name)
             if what == "hash":
-                tag = [c for c in mir.calls(body) if c.b in blocks and c.is_("hash") and "core::hash::impls" in c.callee]
-                ctx.ob("HASH", "hash:tag:" + name, len(tag) >= 1, "[%s] %s arm feeds %d integer tag(s)" % (cfg, name, len(tag)), where(body))
+                tag = [c for c in mir.calls(body) if c.b in blocks and c.is_("hash", "write_u8", "write_u32", "write_i32", "write_usize") and
+                       ("core::hash::impls" in c.callee or "Hasher" in c.callee)]
+                vals = [const_pv(body, c.args[0] if c.is_("hash") else c.args[1]) for c in tag]
+                ctx.ob("HASH", "hash:tag:" + name, len(tag) >= 1 and all(isinstance(x, int) for x in vals),
+                       "[%s] %s arm feeds integer tag(s) %s" % (cfg, name, vals), where(body))
+                tags[name] = tuple(vals)
             if not v["fields"]:
                 continue
             used = child_uses(body, f, blocks, fam)
@@ -630,7 +665,7 @@ def check_eq_cmp(ctx, f, cfg, V):
                 ctx.ob(rule, "%s:child:%s.%s" % (what, name, fld), need <= sides,
                        "[%s] %s arm of %s uses field `%s` of %s" % (cfg, name, what, fld, "both operands" if two and need <= sides else
                                                                     ("self" if need <= sides else "only %s" % sorted(sides))), where(body))
-        n = 0
+        n = nrep = 0
         for b in fam:
             for c in mir.calls(b):
                 if not c.is_("eq", "ne", "cmp", "partial_cmp", "hash"):
@@ -638,9 +673,19 @@ def check_eq_cmp(ctx, f, cfg, V):
                 n += 1
                 tgt = c.fnargs or c.callee
                 rep = any(x in tgt.split(" as ")[0] for x in ("signature::child::Child", "signature::fields::Fields", "alloc::boxed::Box"))
-                ctx.ob(rule, "%s:representation-independent:%s" % (what, "ok" if not rep else tgt.split(" as ")[0]), not rep,
-                       "[%s] %s in %s" % (cfg, tgt[:120], what), c.where)
+                if rep:
+                    nrep += 1
+                    ctx.ob(rule, "%s:representation-independent:%s" % (what, tgt.split(" as ")[0]), False,
+                           "[%s] %s is called in %s: Static and Dynamic forms of the same signature behave differently" % (cfg, tgt[:120], what), c.where)
         ctx.floor(rule, "comparison/hash calls in " + what, n, 3)
+        ctx.ob(rule, "%s:representation-independent" % what, nrep == 0,
+               "[%s] %d eq/cmp/hash call(s) in %s, %d on Child/Fields/Box" % (cfg, n, what, nrep), where(body))
+    by_tag = {}
+    for name, t in tags.items():
+        by_tag.setdefault(t, []).append(name)
+    shared = sorted(v for v in by_tag.values() if len(v) > 1)
+    ctx.ob("HASH", "hash:tags-distinct", not shared and len(tags) == len(V),
+           "[%s] %s" % (cfg, "the %d variants feed %d distinct tags" % (len(V), len(by_tag)) if not shared else "variants sharing a tag: %s" % shared), where(hs))
 
 
 # ------------------------------------------------------------------------------------- GRAMMAR / LIMITS
@@ -712,7 +757,7 @@ def check_limits(ctx, f, cfg, rows, fam):
     len_sites, depth_sites = [], []
     for b in fam:
         for v, kind, ln in int_operands(b):
-            if v in (254, 255, 256) and not kind.startswith("arg:from_str"):
+            if v in (254, 255, 256):
                 len_sites.append((b, kind, ln, v))
             if v in (31, 32, 33):
                 depth_sites.append((b, kind, ln, v))
@@ -781,13 +826,12 @@ def run(ctx):
     ctx.explanation = (
         "Static rules over the MIR of zvariant_utils::signature (K1 and K2). The parser's code table (dispatch switch and "
         "combinator rows), the formatter's variant->text table and string_len's variant->length table are extracted and must be "
-        "mutually inverse / equal for every variant of the enum; PartialEq and Ord are evaluated for all ordered pairs of variants "
+        "mutually inverse / equal for every variant of the enum, and PartialEq<&str> compares with the same text; PartialEq and Ord are evaluated for all ordered pairs of variants "
         "(different variants: eq false, cmp never the constant Equal; same fieldless variant: true / Equal; containers compare every "
         "child); Hash feeds a tag and every child and, like eq and cmp, only ever looks at `Signature` values (never at the "
         "Static/Dynamic representation); Display writes outer parentheses; the struct repeat has lower bound 1 and the whole input "
         "must be consumed; the numeric limits (255 bytes, depth 32, basic dict key) must be present in the parser.")
     ctx.not_decided = ("the combinator grammar beyond these clauses (e.g. `{}` only directly after `a` follows from the row shape, "
-                       "alternatives' order); hash tag values and the literal of the simple arms of PartialEq<&str> (promoted "
-                       "constants are not in the facts); that the limits, once present, use the right comparison.")
+                       "alternatives' order); that the limits, once present, use the right comparison.")
     for cfg in ("K1", "K2"):
         check_config(ctx, ctx.facts(cfg), cfg)
